@@ -175,7 +175,15 @@ func (s *SSD) OnSurvey(surveyType string, payload []byte) ([]byte, bool) {
 
 // Lookup performs a against the storage.
 func (s *SSD) lookup(q lookupQuery) (matches message.Frame) {
-	matches = make(message.Frame, 0, q.Limit)
+	// The limit comes from the client, do not pre-allocate more than a reasonable amount
+	capacity := q.Limit
+	if capacity < 0 {
+		capacity = 0
+	} else if capacity > 64 {
+		capacity = 64
+	}
+
+	matches = make(message.Frame, 0, capacity)
 	if err := s.db.View(func(tx *badger.Txn) error {
 		it := tx.NewIterator(badger.IteratorOptions{
 			PrefetchValues: false,
